@@ -209,7 +209,7 @@ def run_case(case, ctx):
             big[1:-1, 2:-1, 1:-1] = costs
             costs = big[1:-1, 2:-1, 1:-1]
         cv = gen.make_cv(costs, disps, tm, subpix=subpix, validity=validity, conf=conf, conf_names=names)
-        if layout != "C" and cv["cost_volume"].data.flags["C_CONTIGUOUS"] and rows * cols * nd > 1:
+        if layout != "C" and cv["cost_volume"].data.flags["C_CONTIGUOUS"] and sum(int(n_ > 1) for n_ in (rows, cols, nd)) >= 2:
             ctx.inconclusive.append(f"layout {layout} was lost when the dataset was built")
         ctx.gate("volume_is_a_window_of_a_larger_buffer", int(layout == "window" and nan_kind != "none"))
         ctx.gate("volume_in_the_matching_cost_layout", int(layout == "matching-cost"))
